@@ -87,7 +87,7 @@ func run(c *harness.Ctx, i int) {
 	for _, ch := range idx.Chunks {
 		ms.PutRaw(ch.ID, blob[ch.Start:ch.Start+ch.Size])
 	}
-	w := &world{c: c, rng: rng, blob: blob, idx: idx, ms: ms, sz: sz, events: map[string]bool{}, failedID: map[desync.ChunkID]bool{}, errKind: rng.Intn(4)}
+	w := &world{c: c, rng: rng, blob: blob, idx: idx, ms: ms, sz: sz, events: map[string]bool{}, failedID: map[desync.ChunkID]bool{}, errKind: rng.Intn(5)}
 	dir := c.CaseDir()
 	cache := filepath.Join(dir, "cache")
 	state := filepath.Join(dir, "state")
@@ -385,6 +385,11 @@ func (w *world) inject(id desync.ChunkID, n int64) error {
 	w.injected++
 	w.failedID[id] = true
 	w.mu.Unlock()
+	if w.errKind == 4 {
+		// no error from the store: a chunk object whose content cannot be unpacked (a store that does not verify)
+		w.c.Count("undecodable_chunks_delivered_without_error", 1)
+		return dsu.ErrDeliverGarbled
+	}
 	return dsu.FaultErr(w.errKind, fmt.Sprintf("get#%d", n))
 }
 
